@@ -80,8 +80,8 @@ fn replay_engine(engine: &str, case: &Value) -> Option<Result<Result<(), String>
         "stableswap-quote-vs-exact" => replay_case(&c19::C19Swap { survey: false }, case),
         "stableswap-D-vs-exact" => replay_case(&c19::C19D { survey: false }, case),
         "pool-history-backing" => replay_case(&c01::engine(), case),
-        "fuzz-pool-backing" => replay_case(&crate::fuzzglue::pool_engine(), case),
-        "fuzz-farm-custody-rewards" => replay_case(&crate::fuzzglue::farm_engine(), case),
+        "fuzz-pool-backing" | "fuzz-pool-history" => replay_case(&crate::fuzzglue::pool_engine(), case),
+        "fuzz-farm-custody-rewards" | "fuzz-farm-history" => replay_case(&crate::fuzzglue::farm_engine(), case),
         "pool-history-lp-value" => replay_case(&poolprops::c02_hist(), case),
         "pool-history-swap-value" => replay_case(&poolprops::c03_hist(), case),
         "pool-history-swap-conservation" => replay_case(&poolprops::c04_hist(), case),
